@@ -137,3 +137,9 @@ for _p in ('C08', 'C19', 'C20'):
     PROPS[_p]['rule'] += ('; plus the experiment TestOverlap (virtual time): requests of the same client while a stale-while-revalidate background validation is in flight '
                           '(its answer decided by the origin, held, released afterwards): a forced validation that replaces the entry, another variant stored and a later invalidation, '
                           'another variant served stale')
+
+# only-if-cached while the store fails (index or entry reads returning errors or undecodable bytes): monitor only
+PROPS['C18']['e2e'][0]['faults'] = True
+PROPS['C18']['rule'] = E2E_RULE + '; every generated history is run again with store operations failing (plans as for C10): mon_C18 on what the implementation did'
+# C03: the method / Range gate needs Range requests in the histories that hit; C19: invalidation through Location / Content-Location
+PROPS['C19']['e2e'].append(dict(profile='inval', n_quick=500, n_thorough=5000))
